@@ -447,15 +447,25 @@ func SpecMatch(pattern string, hasWild bool, s string) bool {
 //@   loop 1 invariant i == iters1 && len(sublist) == card(rs.subs) && rs.subs == old(rs.subs) && card(rs.subs) == old(card(rs.subs)) && rs.state == stateError
 //@   loop 3 invariant i == iters3 && len(sublist) == card(rs.subs)
 
-// unregister removes the resource subscription, and the links that point to it, from its cache entry.
+// unregister removes the resource subscription from its cache entry - its own registration
+// (base or query) and every link that points to it - and nothing else: every other query
+// registration and every other link is kept.
 //@ func (*ResourceSubscription).unregister
 //@   requires rs != nil && rs.e != nil
 //@   assumes rs.e.links == nil || rs.e.links != rs.e.queries
-//@   ensures[C09] (rs.query == "" ==> rs.e.base == nil) && (rs.query != "" ==> !has(rs.e.queries, rs.query)) && rs.links == nil
+//@   ensures[C09,C13] (rs.query == "" ==> rs.e.base == nil) && (rs.query != "" ==> !has(rs.e.queries, rs.query)) && rs.links == nil
+//@   ensures[C13] forall q string :: q != rs.query ==> has(rs.e.queries, q) == old(has(rs.e.queries, q)) && rs.e.queries[q] == old(rs.e.queries[q])
+//@   ensures[C13] forall k int :: 0 <= k && k < old(len(rs.links)) && old(rs.links[k]) != "" ==> !has(rs.e.links, old(rs.links[k]))
+//@   ensures[C13] forall q string :: has(rs.e.links, q) ==> old(has(rs.e.links, q)) && rs.e.links[q] == old(rs.e.links[q])
+//@   ensures[C13] forall q string :: old(has(rs.e.links, q)) && (forall k int :: 0 <= k && k < old(len(rs.links)) ==> old(rs.links[k]) != q) ==> has(rs.e.links, q)
 //@   assigns rs.e.base, rs.links, elems(rs.e.queries), elems(rs.e.links)
-//@   noframe
 //@   safety[C15]
-//@   loop 1 invariant (rs.query == "" ==> rs.e.base == nil) && (rs.query != "" ==> !has(rs.e.queries, rs.query))
+//@   loop 1 invariant (rs.query == "" ==> rs.e.base == nil) && (rs.query != "" ==> !has(rs.e.queries, rs.query)) && rs.links == old(rs.links) && rs.e.links == old(rs.e.links) && rs.e.queries == old(rs.e.queries)
+//@   loop 1 invariant forall q string :: q != rs.query ==> has(rs.e.queries, q) == old(has(rs.e.queries, q)) && rs.e.queries[q] == old(rs.e.queries[q])
+//@   loop 1 invariant forall k int :: 0 <= k && k < len(rs.links) ==> rs.links[k] == old(rs.links[k])
+//@   loop 1 invariant forall k int :: 0 <= k && k < rangeidx1 && rs.links[k] != "" ==> !has(rs.e.links, rs.links[k])
+//@   loop 1 invariant forall q string :: has(rs.e.links, q) ==> old(has(rs.e.links, q)) && rs.e.links[q] == old(rs.e.links[q])
+//@   loop 1 invariant forall q string :: old(has(rs.e.links, q)) && (forall k int :: 0 <= k && k < rangeidx1 ==> rs.links[k] != q) ==> has(rs.e.links, q)
 
 // --- system events: reset and token reset (C12, C10, C15) ----------------------------------------
 
